@@ -192,6 +192,10 @@ async def _run_acts(ctx, ev, sp, prog, att, v, uid, bid):
                 await asyncio.sleep(0)
             elif d:
                 await asyncio.sleep(d)
+        elif k == "burn":
+            # blocking work: virtual time passes without the event loop getting control
+            vclock.burn(_val(act.get("d", 0), ev, att, 0))
+            r.add("burn", step=step, bid=bid, uid=uid, d=act.get("d"))
         elif k == "yield":
             for _ in range(act.get("n", 1)):
                 await asyncio.sleep(0)
@@ -241,23 +245,25 @@ async def _run_acts(ctx, ev, sp, prog, att, v, uid, bid):
             if wid is not None:
                 wid = wid.replace("{v}", str(v)).replace("{uid}", str(uid))
             req = {kk: (v if vv == "{v}" else vv) for kk, vv in (act.get("req") or {}).items()}
+            # no explicit waiter id: the engine derives one; the harness keys its own records by invocation
+            rwid = wid if wid is not None else f"default:{step}:{uid}"
             ask = None
             if act.get("ask"):
-                ask = E.BY_NAME[act["ask"]](uid=f"ask:{wid or step + ':' + str(v)}", v=v, **req)
+                ask = E.BY_NAME[act["ask"]](uid=f"ask:{rwid}", v=v, **req)
             kwargs = {}
             if "timeout" in act:
                 kwargs["timeout"] = act["timeout"]
-            r.add("wait_call", step=step, bid=bid, uid=uid, wid=wid, v=v, req=req, type=act["type"])
+            r.add("wait_call", step=step, bid=bid, uid=uid, wid=rwid, v=v, req=req, type=act["type"])
             try:
                 got = await ctx.wait_for_event(T, waiter_event=ask, waiter_id=wid, requirements=req or None, **kwargs)
             except asyncio.TimeoutError:
-                r.add("wait_timeout", step=step, bid=bid, uid=uid, wid=wid, v=v)
+                r.add("wait_timeout", step=step, bid=bid, uid=uid, wid=rwid, v=v)
                 if act.get("on_timeout") == "raise":
                     raise
                 local["waited"] = None
                 local["timed_out"] = True
             else:
-                r.add("wait_ret", step=step, bid=bid, uid=uid, wid=wid, v=v, req=req, want=act["type"],
+                r.add("wait_ret", step=step, bid=bid, uid=uid, wid=rwid, v=v, req=req, want=act["type"],
                       got_type=type(got).__name__, got_uid=got.get("uid", None), got_fields={kk: got.get(kk, None) for kk in req})
                 local["waited"] = got
         elif k == "stream":
